@@ -102,14 +102,62 @@ type world struct {
 	bi    int
 
 	// bookkeeping for classification only: slots written / value transfers made inside each open activation
-	wrote [][]string
-	sent  []int
+	wrote   [][]string
+	sent    []int
+	drifted bool // the real state differed from the model's state at some earlier step of this behaviour
 
 	rep *report
 }
 
+// preCall is the state observed right before an inner call, plus the call's value transfer
+type preCall struct {
+	p            proj
+	dest, sender string
+	v            int
+}
+
+func accJSON(m map[string]accP) map[string]interface{} {
+	r := map[string]interface{}{}
+	for a, p := range m {
+		tr := []interface{}{}
+		for _, t := range p.Tr {
+			tr = append(tr, float64(t))
+		}
+		r[a] = map[string]interface{}{"d": float64(p.D), "tr": tr}
+	}
+	return r
+}
+
+func (c *preCall) asWant() map[string]interface{} {
+	stor := map[string]interface{}{}
+	for a, m := range c.p.Stor {
+		mm := map[string]interface{}{}
+		for k, v := range m {
+			mm[k] = float64(v)
+		}
+		stor[a] = mm
+	}
+	own := map[string]interface{}{}
+	for k, v := range c.p.Own {
+		own[k] = float64(v)
+	}
+	cv := map[string]accP{}
+	for a, p := range c.p.Acc {
+		cv[a] = accP{D: p.D, Tr: append([]int{}, p.Tr...)}
+	}
+	s, d := cv[c.sender], accP{}
+	s.D -= c.v
+	cv[c.sender] = s
+	d = cv[c.dest]
+	d.D += c.v
+	d.Tr = append(d.Tr, c.v)
+	cv[c.dest] = d
+	return map[string]interface{}{"stor": stor, "own": own, "acc": accJSON(c.p.Acc), "acccv": accJSON(cv)}
+}
+
 type report struct {
 	steps, fails, nviol, ndrift int
+	judgedOnObserved            int
 	distinct                    *vtrace.Distinct
 	sigs                        map[string]int
 }
@@ -238,8 +286,15 @@ func contains(l []string, s string) bool {
 
 // checkWant compares the state observed right after a failed inner call with the pre-call state the property
 // demands (out.want, computed by TLC) and reports one violation per class
-func (w *world) checkWant(st vtrace.Step, got proj, via string, depth int, wrote []string, sent int) {
+func (w *world) checkWant(st vtrace.Step, got proj, via string, depth int, wrote []string, sent int, pre *preCall) {
 	want := asMap(st.Out["want"])
+	if w.drifted && pre != nil {
+		// the real state has left the model's state earlier in this behaviour, so the model's pre-call state is
+		// not the state this call started from: judge against the state OBSERVED right before the call instead
+		// (the property is literally "state after the failed call = state before it")
+		want = pre.asWant()
+		w.rep.judgedOnObserved++
+	}
 	w.rep.fails++
 	report := func(kind, what string) {
 		sig := fmt.Sprintf("C40/%s/%s", kind, via)
@@ -308,6 +363,7 @@ func (w *world) check(st vtrace.Step) proj {
 	got := w.observe()
 	w.rep.steps++
 	if d := w.diffState(st.St, got); d != "" {
+		w.drifted = true
 		w.rep.ndrift++
 		if w.rep.ndrift <= 3 {
 			vtrace.Drift("C40", fmt.Sprintf("behaviour %d step %d (%s %v): %s", w.bi, w.pos-1, st.A, st.In, d),
@@ -376,6 +432,11 @@ func (w *world) run(entered bool) vmcommon.ReturnCode {
 			if val.Sign() != 0 {
 				w.noteSent() // a value transfer made inside every enclosing activation
 			}
+			sender := me
+			if st.A == "Call" {
+				sender = vtrace.Str(st.In["sender"])
+			}
+			pre := &preCall{p: w.observe(), dest: dest, sender: sender, v: int(val.Int64())}
 			w.push()
 			var code vmcommon.ReturnCode
 			if st.A == "Call" {
@@ -409,17 +470,18 @@ func (w *world) run(entered bool) vmcommon.ReturnCode {
 				if vtrace.Str(r.In["via"]) == "deploy" {
 					via = "DeploySystemSC"
 				}
-				w.checkWant(r, got, via, vtrace.Int(r.In["depth"]), wrote, sent)
+				w.checkWant(r, got, via, vtrace.Int(r.In["depth"]), wrote, sent, pre)
 			}
 		case "CallMissing":
 			depth := vtrace.Int(w.steps[w.pos-2].St["depth"]) + 1
+			pre := &preCall{p: w.observe(), dest: vtrace.Str(st.In["dest"]), sender: vtrace.Str(st.In["sender"]), v: vtrace.Int(st.In["v"])}
 			out, err := w.eei.ExecuteOnDestContext(addrOf(vtrace.Str(st.In["dest"])), addrOf(vtrace.Str(st.In["sender"])),
 				big.NewInt(int64(vtrace.Int(st.In["v"]))), []byte("run"))
 			if err == nil {
 				vtrace.Broken(fmt.Sprintf("ExecuteOnDestContext to an address without contract succeeded: %v", out))
 			}
 			got := w.check(st)
-			w.checkWant(st, got, "missing-contract", depth, nil, 0)
+			w.checkWant(st, got, "missing-contract", depth, nil, 0, pre)
 			if vtrace.Int(st.In["v"]) != 0 {
 				w.noteSent() // for the enclosing activations this was a value transfer made inside them
 			}
@@ -481,6 +543,7 @@ func replay(path string) {
 	vtrace.Stat("distinct", rep.distinct.Len())
 	vtrace.Stat("violations", rep.nviol)
 	vtrace.Stat("drifts", rep.ndrift)
+	vtrace.Stat("judged_on_observed_precall_state", rep.judgedOnObserved)
 	sigs := []string{}
 	for s, n := range rep.sigs {
 		sigs = append(sigs, fmt.Sprintf("%s x%d", s, n))
